@@ -125,7 +125,7 @@ def discharge(ob, inputs, timeout_s=30, use_cvc5=True, ufuns=None):
         done = None
         if _relaxed_unsat(ob, min(timeout_s, 6)):
             done = 'z3:real-relaxation(nlsat)'
-        elif use_cvc5 and _cvc5(s.to_smt2().replace('(check-sat)', ''), min(timeout_s, 20)) == 'unsat':
+        elif use_cvc5 and _cvc5(s.to_smt2().replace('(check-sat)', ''), timeout_s) == 'unsat':
             done = 'cvc5'
         elif timeout_s > 6 and _relaxed_unsat(ob, timeout_s):
             done = 'z3:real-relaxation(nlsat)'
